@@ -754,6 +754,17 @@ class Machine:
         self._sem_cache[key] = (res, addr)
         return res
 
+    def static_frame_size(self, s):
+        """N of the prologue's `sub $N, %rsp` of the function being executed"""
+        name = s.callstack[-1][0] if s.callstack else None
+        start = self.prog.funcs.get(self.entry_func)
+        if start is None:
+            return None
+        for ins in self.prog.insns[start:start + 4]:
+            if ins.mn == "sub" and len(ins.ops) == 2 and ins.ops[0].kind == "imm" and ins.ops[1].kind == "reg" and ins.ops[1].reg == "rsp":
+                return ins.ops[0].imm
+        return None
+
     def fresh_bool(self, tag):
         self.nfresh += 1
         return z3.Bool("%s!%d" % (tag, self.nfresh))
@@ -801,6 +812,7 @@ class Machine:
     def run(self, func, init=None, stop_at_events=None):
         """Explore all paths from the entry of `func`. Returns list of final States
         (at the function's own `ret`)."""
+        self.entry_func = func
         s0 = self.initial_state(func)
         if init:
             init(s0)
@@ -1260,8 +1272,16 @@ class Machine:
             if s.spilled:
                 # frame lives in the array: the callee may not touch the caller's frame, so copy it over
                 lo = s._stack_off(s.regs["rsp"])
-                if lo is None or lo < -65536:
-                    raise Unmodelled("external call after frame spill with symbolic/huge rsp")
+                if lo is None:
+                    # rsp moved by a run-time amount (alloca/VLA): the static frame below rbp is still the caller's;
+                    # whatever lies between rsp and it (the alloca blocks) may be written by the callee through pointers
+                    rb = s._stack_off(s.regs["rbp"])
+                    fs = self.static_frame_size(s)
+                    if rb is None or fs is None:
+                        raise Unmodelled("external call after frame spill with symbolic rsp and unknown frame size")
+                    lo = rb - fs
+                if lo < -65536:
+                    raise Unmodelled("external call after frame spill with huge frame")
                 for off in range(lo, 136):
                     a = simp(self.RSP0 + bv(off))
                     newheap = z3.Store(newheap, a, z3.Select(s.heap, a))
